@@ -1,0 +1,14 @@
+//go:build verif
+
+package compiler
+
+// Contracts for the deductive checker in /verif (comment-only; compiled only under the verif tag).
+
+// Compile: the Fischlin family keeps the caller's reader and rejects a nil one (so a protocol step that may run
+// under any supported compiler must hand its own reader over: precondition); an unknown name is an error.
+//@ func Compile
+//@   property C03, C08
+//@   requires compilerName != fiatshamir.Name ==> prng != nil
+//@   ensures (compilerName == fischlin.Name || compilerName == randfischlin.Name) && prng == nil ==> err != nil
+//@   ensures compilerName != fiatshamir.Name && compilerName != fischlin.Name && compilerName != randfischlin.Name ==> err != nil
+//@   ensures forall x V :: !culprit(err, x)
